@@ -450,6 +450,13 @@ func (txtArea) Gen(r *hx.Rng, n int, _ string, emit func(string)) {
 
 func (floatArea) Gen(r *hx.Rng, n int, _ string, emit func(string)) {
 	for i := 0; i < n; i++ {
+		emit(genFloatCase(r, "cf"))
+	}
+}
+
+// genFloatCase produces one float-target case; `op` is "cf" (oracle area) or "cfm" (model area).
+func genFloatCase(r *hx.Rng, op string) string {
+	{
 		d := 1 + r.Intn(16)
 		ty, wide := pickTy(r)
 		mult := pow10(d)
@@ -518,7 +525,10 @@ func (floatArea) Gen(r *hx.Rng, n int, _ string, emit func(string)) {
 		if !wide && tg == "64" && new(big.Int).Abs(v).Cmp(new(big.Int).Lsh(big.NewInt(1), 53)) > 0 {
 			class = "r"
 		}
-		emit("cf " + ty + " " + strconv.Itoa(d) + " " + v.String() + " " + tg + " " + class)
+		if op == "cfm" {
+			return "cfm " + ty + " " + strconv.Itoa(d) + " " + v.String() + " " + tg
+		}
+		return "cf " + ty + " " + strconv.Itoa(d) + " " + v.String() + " " + tg + " " + class
 	}
 }
 
